@@ -1,6 +1,9 @@
 package core_domain
 
-import "strings"
+import (
+	"sort"
+	"strings"
+)
 
 type CodeDataStruct struct {
 	NodeName        string
@@ -38,6 +41,18 @@ func (d *CodeDataStruct) SetMethodFromMap(methodMap map[string]CodeFunction) {
 	for _, value := range methodMap {
 		methodsArray = append(methodsArray, value)
 	}
+
+	// map iteration order is random: keep the functions in source order so that every report derived from
+	// them (last overload wins in call graphs and test smells) is the same on every run
+	sort.SliceStable(methodsArray, func(i, j int) bool {
+		if methodsArray[i].Position.StartLine != methodsArray[j].Position.StartLine {
+			return methodsArray[i].Position.StartLine < methodsArray[j].Position.StartLine
+		}
+		if methodsArray[i].Position.StartLinePosition != methodsArray[j].Position.StartLinePosition {
+			return methodsArray[i].Position.StartLinePosition < methodsArray[j].Position.StartLinePosition
+		}
+		return methodsArray[i].Name < methodsArray[j].Name
+	})
 
 	d.Functions = methodsArray
 }
